@@ -129,6 +129,41 @@ static json_bool json_tokener_validate_utf8(const char c, unsigned int *nBytes);
 
 static int json_tokener_parse_double(const char *buf, int len, double *retval);
 
+/* The number grammar of RFC 8259 section 6: no superfluous leading zero, digits on
+ * both sides of a decimal point, digits after an exponent marker.
+ */
+static int json_tokener_is_rfc8259_number(const char *s)
+{
+	if (*s == '-')
+		s++;
+	if (*s == '0')
+		s++;
+	else if (*s >= '1' && *s <= '9')
+		while (*s >= '0' && *s <= '9')
+			s++;
+	else
+		return 0;
+	if (*s == '.')
+	{
+		s++;
+		if (!(*s >= '0' && *s <= '9'))
+			return 0;
+		while (*s >= '0' && *s <= '9')
+			s++;
+	}
+	if (*s == 'e' || *s == 'E')
+	{
+		s++;
+		if (*s == '+' || *s == '-')
+			s++;
+		if (!(*s >= '0' && *s <= '9'))
+			return 0;
+		while (*s >= '0' && *s <= '9')
+			s++;
+	}
+	return *s == '\0';
+}
+
 const char *json_tokener_error_desc(enum json_tokener_error jerr)
 {
 	int jerr_int = (int)jerr;
@@ -1059,6 +1094,12 @@ struct json_object *json_tokener_parse_ex(struct json_tokener *tok, const char *
 					tok->pb->buf[printbuf_length(tok->pb) - 1] = '\0';
 					printbuf_length(tok->pb)--;
 				}
+			}
+			if ((tok->flags & JSON_TOKENER_STRICT) &&
+			    !json_tokener_is_rfc8259_number(tok->pb->buf))
+			{
+				tok->err = json_tokener_error_parse_number;
+				goto out;
 			}
 		}
 			{
